@@ -5,7 +5,8 @@ import os
 from jugverif import core, graphcheck as G, genprog
 
 LEVEL = 'proof'
-THEOREMS = ['Jug.C15.classify_spec', 'Jug.C15.totals_add_up', 'Jug.C15.cached_eq_uncached', 'Jug.C15.check_iff', 'Jug.C15.classifier_table_matches', 'Jug.C15.graph_classifier_eq']
+THEOREMS = ['Jug.C15.classify_spec', 'Jug.C15.totals_add_up', 'Jug.C15.cached_eq_uncached', 'Jug.C15.check_iff', 'Jug.C15.classifier_table_matches', 'Jug.C15.graph_classifier_eq',
+            'Jug.MemoProps.memo_truthful', 'Jug.MemoProps.locked_answers_constant', 'Jug.MemoProps.failed_sticky', 'Jug.MemoProps.canLoad_truthful']
 
 
 def extract():
@@ -17,12 +18,12 @@ def check(run):
     quick = run.tier == 'quick'
     run.rule = ('generated DAGs x store states (arbitrary subsets of results present - closed under dependencies or not - and arbitrary held/failed locks) x backends (file, file+pack, in-memory, redis protocol): the '
                 'table printed by the real `jug status` (all five columns per task name and the Total row) uncached and cached, and the exit status of the real check walk, compared with the Lean model and with the '
-                'property; cached mode along monotone histories of 3-5 states with an on-disk cache file; the stores `jug invalidate` leaves behind (all complete but one task and what is built on it) for the check walk; non-trivial = the state has complete, waiting and at least one locked runnable task; distinct by (program, state)')
+                'property; the memoizing lock wrapper of the cached mode under every query sequence up to length 3 and random longer ones, with the base lock unchanged and changing between queries, vs Model/Memo.lean; cached mode along monotone histories of 3-5 states with an on-disk cache file; the stores `jug invalidate` leaves behind (all complete but one task and what is built on it) for the check walk; non-trivial = the state has complete, waiting and at least one locked runnable task; distinct by (program, state)')
     run.assumptions = ['direct dependencies = what Task.dependencies() reports (its agreement with the results a task really reads is C03)', 'between cached calls results are only added and the jugfile is unchanged',
                        'check: stores closed under dependencies (what execute/invalidate/cleanup produce)']
     run.trusted = ['Lean 4.33.0 kernel', 'axioms propext, Classical.choice, Quot.sound', 'harness/jugverif/extract_status.py (exhaustive table of the real update_status)', 'harness/jugverif/graphcheck.py']
     extract()
-    run.lean(['JugModel.Props.C15', 'jugdrv'], theorems_expected=THEOREMS)
+    run.lean(['JugModel.Props.C15', 'JugModel.Props.Memo', 'jugdrv'], theorems_expected=THEOREMS)
     drv = core.Driver() if run.driver_ok else None
     rng = core.rng_for(run.seed, 'c15')
     scratch = core.scratch_dir()
@@ -160,12 +161,85 @@ def check(run):
                         run.corr_disagreements += 1
                         run.obligation('correspondence status/check model=code', False, 'model check %s; code rc %s; case %s' % (ans['check'], rc, json.dumps(rp)[:300]))
             core.rm_rf(d)
+        memo_family(run, drv, scratch, rng, quick)
         if drv is not None and run.corr_disagreements == 0:
             run.obligation('correspondence: %d printed status tables / check exit codes equal the model' % run.corr_programs, True)
     finally:
         core.rm_rf(scratch)
         if drv is not None:
             drv.close()
+
+
+def memo_family(run, drv, scratch, rng, quick):
+    """the memoizing read-only wrapper `jug status --cache` looks at the locks through (jug/backends/memoize_store.py) against Model/Memo.lean: sequences of
+    is_locked() / is_failed() on one wrapped lock while the base lock stays as it is (the answers must be the truth: memo_truthful) and while other clients take,
+    fail and release it between the queries (the answers must be those of the model: one look per lock, locked_answers_constant)"""
+    import itertools
+    from jug.backends.memoize_store import memoize_store
+    from jugverif import storecheck
+    name = b'ab' * 20
+    kinds = ['file', 'dict', 'redis']
+    seqs = []
+    for r in (1, 2, 3):
+        for qs in itertools.product('LF', repeat=r):
+            for st in ('free', 'held', 'failed'):
+                seqs.append([(st, q) for q in qs])
+    for _ in range(60 if quick else 600):
+        seqs.append([(rng.choice(['free', 'held', 'failed']), rng.choice('LF')) for _ in range(rng.randint(2, 6))])
+    for si, seq in enumerate(seqs):
+        kind = kinds[si % 3]
+        for list_base in (False, True):
+            d = os.path.join(scratch, 'memo-%d-%s' % (si, list_base))
+            os.makedirs(d, exist_ok=True)
+            cfg = storecheck.Cfg(kind, d)
+            base = cfg.open()
+            holder = [None]
+
+            def put(st):
+                # bring the base lock into state st, as its holder would
+                if holder[0] is not None:
+                    holder[0].release()
+                    holder[0] = None
+                if st != 'free':
+                    holder[0] = base.getlock(name)
+                    assert holder[0].get()
+                    if st == 'failed':
+                        holder[0].fail()
+            put(seq[0][0])
+            ms = memoize_store(cfg.open() if cfg.can_reopen else base, list_base=list_base)
+            lk = ms.getlock(name)
+            got = []
+            for st, q in seq:
+                put(st)
+                got.append(bool(lk.is_locked() if q == 'L' else lk.is_failed()))
+            static = len({st for st, _ in seq}) == 1
+            run.case(('memo', kind, list_base, tuple(seq)), nontrivial=not static or seq[0][0] != 'free')
+            run.count('memo_query_sequences')
+            rp = {'kind': 'memoized-lock', 'backend': kind, 'list_base': list_base, 'sequence': seq}
+            if static:
+                st = seq[0][0]
+                want = [(st != 'free') if q == 'L' else (st == 'failed') for _, q in seq]
+                if got != want:
+                    run.fail('memoized-lock-misreported', '%s lock that is %s, seen through the memoizing store of `jug status` (list_base=%s): the queries %s answer %s, the truth is %s'
+                             % (kind, st, list_base, [q for _, q in seq], got, want), rp)
+            if drv is not None:
+                ans = drv.ask({'op': 'memo', 'listing': (seq[0][0] != 'free') if list_base else None, 'qs': [[st, q] for st, q in seq]})
+                run.corr_programs += 1
+                if ans.get('answers') != got:
+                    run.corr_disagreements += 1
+                    run.obligation('correspondence memoizing lock wrapper model=code', False, 'model %s code %s; case %s' % (ans.get('answers'), got, json.dumps(rp)[:300]))
+                    if not static:
+                        # the model is what the theorem locked_answers_constant is about: judge the real answers by the statement itself
+                        first = None
+                        for (st, q), a in zip(seq, got):
+                            if q == 'L':
+                                if first is None:
+                                    first = a
+                                elif a != first and not list_base:
+                                    run.fail('memoized-lock-unstable', '%s lock seen through the memoizing store: is_locked() answered %s and later %s within one wrapper (one status table mixes two looks at the lock); sequence %s'
+                                             % (kind, first, a, seq), rp)
+                                    break
+            core.rm_rf(d)
 
 
 def replay(path):
